@@ -40,11 +40,14 @@ type vScriptEnv struct {
 
 // vBuildScript draws keys/hash, runs the real builder and parses its output.
 func vBuildScript(csv uint32) *vScriptEnv {
-	zzverif.Unwind(4096) // vConcByte: one solver-resolved decision per literal script bit
+	zzverif.Unwind(4096)
 	e := &vScriptEnv{csv: csv}
 	e.maker = zzverif.Bytes("maker", 33)
 	e.taker = zzverif.Bytes("taker", 33)
 	e.hash = zzverif.Bytes("hash", 32)
+	vNoteLen(e.maker)
+	vNoteLen(e.taker)
+	vNoteLen(e.hash)
 	s, err := GetOpeningTxScript(e.taker, e.maker, e.hash, csv)
 	if err != nil {
 		zzverif.Fail("builder error (excluded by H_C02_binding: C02.bind_no_error)")
@@ -73,6 +76,9 @@ func H_C02_binding() {
 	maker := zzverif.Bytes("maker", 33)
 	taker := zzverif.Bytes("taker", 33)
 	hash := zzverif.Bytes("hash", 32)
+	vNoteLen(maker)
+	vNoteLen(taker)
+	vNoteLen(hash)
 	s, err := GetOpeningTxScript(taker, maker, hash, csv)
 	zzverif.Assert(err == nil, "C02.bind_no_error")
 	ops, ok := vParseScript(s)
@@ -122,6 +128,9 @@ func H_C02_binding() {
 		}
 		if x == hh {
 			return hash, nil
+		}
+		if x == "20" {
+			return []byte{0x20}, nil // h2b("20") in GetOpeningTxScript
 		}
 		zzverif.Fail("unexpected hex string")
 		return nil, nil
